@@ -192,5 +192,7 @@ def follow(ctx):
         v, stepn = verdicts[0]
         if v != "ok":
             ctx.note_drift("server hooks (%s): %s at event %d: ...%s" % (t["wk"], v, stepn, t["ev"][max(0, stepn - 4):stepn]))
+    ctx.coverage["hook_kinds_followed"] = sorted({k for _, m in results for k in m["kinds"]})
+    ctx.coverage["hook_kinds_never_logged"] = sorted({"pre_exec"} - {k for _, m in results for k in m["kinds"]})
     ctx.coverage["hook_log_runs"] = len(results)
     ctx.coverage["hook_calls_followed"] = n
